@@ -29,6 +29,8 @@ PUT_SCENARIOS = {
                                            'pre_pay': [('t1', b'n.part', 'file'), ('t1', b'n~', 'file'), ('t1', b'n.tmp', 'dir'),
                                                        ('t1', b'n_1.part', 'file')]}),
     'long-names':    (['file', 'dir'], {'base': LONG, 'tdir_exists': True, 'pre_pay': [('t1', 'n1', 'file')], 'pre_info': [('t1', 'n2')]}),
+    'infoname':      (['file', 'dir'], {'base': b'n.trashinfo', 'tdir_exists': True}),
+    'short-writes':  (['file', 'dir'], {'short_writes': True}),
 }
 
 SINGLE_SCENARIOS = {
@@ -58,6 +60,13 @@ SINGLE_SCENARIOS = {
     'fallback-bystanders-dir': ('dir', {'src_vol': 'V1', 'fallback': True, 'tdir_exists': True,
                                         'pre_info': [('t1', b) for b in (b'n.part', b'n.tmp')],
                                         'pre_pay': [('t1', b'n.part', 'dir'), ('t1', b'n.tmp', 'file')]}),
+    # the entry's own name contains the suffix of the info files: 'n.trashinfo.d' is trashed as files/n.trashinfo.d with
+    # info/n.trashinfo.d.trashinfo, like any other name
+    # every write stores only half of what it is given and says so (quota, file-size limit, nearly full disk)
+    'short-writes-file': ('file', {'short_writes': True}),
+    'short-writes-dir':  ('dir', {'short_writes': True, 'tdir_exists': True, 'pre_info': [('t1', b'n')]}),
+    'infoname-file':   ('file', {'base': b'n.trashinfo.d'}),
+    'infoname-dir':    ('dir', {'base': b'n.trashinfo', 'tdir_exists': True}),
     'long-first':      ('file', {'base': LONG}),
     'long-orphan':     ('dir', {'base': LONG, 'tdir_exists': True, 'pre_pay': [('t1', 'n1', 'emptydir')]}),
 }
@@ -458,7 +467,20 @@ def run_purge_crash(args):
         o1 = {'info': info, 'pay': pay, 'dest': dest, 'done': not killed, 'cmd': cmd, 'selected': sel, 'purged': False,
               'occupied': OCCUPIED.get(scen, [])}
         # recovery: empty / rm are simply run again; what a killed restore leaves in the trash must be purgeable
+        o_retry = None
         if cmd == 'restore':
+            # first the user tries again, entry by entry, with --overwrite (the first attempt may have left the entry at its
+            # place AND its info in the trash): nothing may get lost by that
+            # (a directory at the destination of the tree entry e2 - half copied, or whole with the removal of the payload
+            # still under way - makes --overwrite an overwrite onto a directory, which the properties leave open: there the
+            # retry is made without the switch and must be refused)
+            half = any(v == 'partial' for v in dest.values()) or (info.get('e2') == 'present' and dest.get('e2') != 'absent')
+            for idx in ('3', '2', '1', '0'):
+                box.run('restore', [idx] if half else [idx, '--overwrite'])
+            info_r, pay_r, dest_r = box.project()
+            o_retry = {'info': info_r, 'pay': pay_r, 'dest': dest_r, 'done': False, 'cmd': 'restore',
+                       'selected': ['e1', 'e2', 'e3', 'e4'], 'purged': False, 'occupied': OCCUPIED.get(scen, [])}
+            dest = dest_r
             r2 = box.run('empty', [])
         else:
             r2 = box.run(cmd, argv)
@@ -471,7 +493,7 @@ def run_purge_crash(args):
             # destinations reached before the kill must survive the recovery purge untouched
             o2['dest_kept'] = all(dest2[e] == dest[e] for e in dest)
         return {'scen': scen, 'k': k, 'killed': killed, 'at': [last[0].get('op'), last[0].get('raw')], 'after_kill': o1,
-                'outside_intact': box.outside_intact(),
+                'outside_intact': box.outside_intact(), 'after_retry': o_retry,
                 'after_rerun': o2, 'rerun_exit': r2['exit'], 'rerun_err': r2['stderr'][-300:].decode('utf-8', 'replace')}
     finally:
         box.destroy()
